@@ -34,6 +34,9 @@ var standins = map[string][]standin{
 		{Name: "C0616", Pkg: "knx/dpt", File: "dpt_16_test.go", Run: "^TestKvcStandinC0616$",
 			Domain: "NOT exhaustive: 15-byte payloads of 16.000/16.001 in which two adjacent octets range over all 65,536 values at every position while the other octets are all 0x00, all 'A' or all 0xE9 (5.1 million payloads)",
 			Stands: "round trip of the two string types: the deductive lemma exceeds the path budget (string <-> []rune conversions inside two 14-step loops); per-octet independence of the codec is NOT proved"}},
+	"C18": {{Name: "C18", Pkg: "knx/cemi", File: "cemi_addr_test.go", Run: "^TestKvcStandinC18$",
+		Domain: "all 65,535 non-zero group and individual addresses (format then parse); all 3-level component triples in [-3,35]x[-3,19]x[-3,259], 2-level pairs in [-3,259]x[-3,2051], raw values in [-3,65539]; 42 malformed texts; every argument combination of the four component constructors",
+		Stands: "the composition of the parsers/formatters with the real fmt.Sprintf, strings.Split and strconv.Atoi, which the deductive check replaces by assumed contracts over an abstract decimal-text view"}},
 	"C07": {{Name: "C07F16", Pkg: "knx/dpt", File: "dpt_f16_test.go", Run: "^TestKvcStandinC07F16$",
 		Domain: "every float32 bit pattern except NaNs (4,261,412,866 values) through packF16/unpackF16, in increasing order; plus both range end points of each 9.xxx type",
 		Stands: "format, self-decodability, one-step accuracy within [-670760,670760], saturation outside, and monotonicity of the shared two-octet float codec"},
